@@ -9,6 +9,8 @@ import time
 sys.path.insert(0, os.path.dirname(os.path.abspath(__file__)))
 import core  # noqa: E402
 
+sys.setrecursionlimit(20000)
+
 LEVELS = {
     "C01": "exploration", "C02": "fault_enumeration", "C03": "fault_enumeration", "C04": "exploration",
     "C05": "exploration", "C06": "exploration", "C07": "exploration", "C08": "exploration",
